@@ -227,7 +227,7 @@ SPEC = TreeSpec(
     nontrivial=nontrivial,
     extra=lambda cd: st.integers(0, 1000),
     sample_of=sample_of,
-    quick_examples=10,
+    quick_examples=25,
     thorough_examples=80,
     assumptions=("NaN floats are outside the canonical domain (f64 excludes them), so reflexive equality is expected",),
 )
